@@ -52,7 +52,7 @@ def run_c03(ctx, C):
 
 
 GEN_CURSOR = dict(module="Gen_Cursor", name="cursor", constants=dict(Window=lambda ctx: 12 if ctx.thorough else 2), trace=False, timeout=3000)
-DRV_BYTES = dict(name="randbytes", driver="randbytes", n_quick=4000, n_thorough=500000)
+DRV_BYTES = dict(name="randbytes", driver="randbytes", n_quick=4000, n_thorough=120000)   # (500000 gives a 7 GB trace and the validation runs out of memory)
 
 
 GEN_INSERT = dict(module="Gen_Insert", name="insert", trace=False)
@@ -65,7 +65,7 @@ def run_c05(ctx, C):
 
 
 def run_c12(ctx, C):
-    codec_common(ctx, C, [GEN_CODEC, GEN_LIBERTY, GEN_CURSOR], [DRV_CODEC, dict(DRV_BYTES, n_quick=1500, n_thorough=150000)])
+    codec_common(ctx, C, [GEN_CODEC, GEN_LIBERTY, GEN_CURSOR], [DRV_CODEC, dict(DRV_BYTES, n_quick=1500, n_thorough=60000)])
 
 
 def run_c13(ctx, C):
